@@ -415,15 +415,21 @@ def twins_swapped_fix(seed):
     a.write_file(0, "X", [1, 2], mtime=11)
     a.write_file(0, "Y", [3, 4], mtime=11)
     a.write_file(0, "K", [5], mtime=12)
+    # P and Q: same size, whole-second stamps one second apart: after the exchange each path carries the inode recorded for the
+    # other file, but of ANOTHER time stamp - no collision, fix puts the recorded stamps back
+    a.write_file(0, "P", [20, 21], mtime=21)
+    a.write_file(0, "Q", [22, 23], mtime=22)
     a.write_file(1, "C", [6, 7, 8], mtime=13)
     rec = recorder.Recorder(a)
-    d = ["init X Y (same size, same stamp) K / C"]
+    d = ["init X Y (same size, same stamp) K, P Q (same size, stamps one second apart) / C"]
     r, o = rec.sync(); d.append("sync -> %s" % o["exit"])
     a.clock += 10
     r, o = rec.sync(); d.append("sync -> %s" % o["exit"])
     px, py = a.path(0, "X"), a.path(0, "Y")
     os.rename(px, px + ".t"); os.rename(py, px); os.rename(px + ".t", py)
-    rec.env("X and Y exchange their names"); d.append("swap X <-> Y")
+    pp, pq = a.path(0, "P"), a.path(0, "Q")
+    os.rename(pp, pp + ".t"); os.rename(pq, pp); os.rename(pp + ".t", pq)
+    rec.env("X and Y, P and Q exchange their names"); d.append("swap X <-> Y, P <-> Q")
     r, o = rec.diff(); d.append("diff -> %s" % o["exit"])
     r, o = rec.check(); d.append("check -> %s" % o["exit"])
     r, o = rec.fix(); d.append("fix -> %s" % o["exit"])
